@@ -1,0 +1,17 @@
+//go:build verif
+
+package metaclient
+
+// Contracts for /verif (gvc). Comment-only file; see /verif/DESIGN.md §5 C19.
+
+//@ prop C19
+
+// Passwords are checked against a cache of successful logins. When a new catalogue snapshot arrives (it may carry a
+// changed password or a dropped user) the cache is purged against the user table of THAT snapshot, which is already
+// the current one when the purge runs: purging against the previous snapshot keeps the old password valid.
+//@ func (*Client).pollForUpdates
+//@   call .UpdateAuthCache
+//@     requires [purge_against_the_new_snapshot] c.cacheData == data && arg0 == data.Users
+//@ func (*Client).pollForUpdatesV2
+//@   call .UpdateAuthCache
+//@     requires [purge_against_the_current_snapshot] arg0 == c.cacheData.Users
